@@ -458,6 +458,13 @@ func c16KeyFile(t *rapid.T) {
 		t.Fatalf("harness: %v", err)
 	}
 	defer os.RemoveAll(dir)
+	if len(s.keys) > 0 && rapid.Bool().Draw(t, "blankInKey") {
+		// key names may contain blanks and tabs; a line of the key file is one key
+		i := rapid.IntRange(0, len(s.keys)-1).Draw(t, "whichKey")
+		if !strings.ContainsAny(s.keys[i].key, "\n\r") && !c.filt.hasKeyFilter() {
+			s.keys[i].key += rapid.SampledFrom([]string{" x", "\ty", " ", "  two  blanks"}).Draw(t, "blank")
+		}
+	}
 	var lines []string
 	hasEmptyKey := false
 	for _, k := range s.keys {
